@@ -45,7 +45,7 @@ def probe_module(m, rng_seeds, nvals):
     outs, crashes = run_robust(m["exe"], lines)
     for l, rc, err in crashes:
         k, fr = frames(err, rc)
-        recs.append({"cls": "crash", "stage": "rfill", "tn": l.split()[1] if l else None, "cmd": l, "rc": rc, "kind": k, "frames": fr, "err": err[-1800:]})
+        recs.append({"cls": "crash", "stage": "rfill", "tn": l.split()[1] if l else None, "cmd": l, "rc": rc, "kind": k, "frames": fr, "err": err[:2500] + err[-1500:] if len(err) > 4000 else err})
     vals = set()
     facts = {}
     nfill = collections.Counter()
@@ -69,14 +69,14 @@ def probe_module(m, rng_seeds, nvals):
     for l, rc, err in crashes:
         if l is None:
             k, fr = frames(err, rc)
-            recs.append({"cls": "crash", "stage": "exit", "tn": None, "cmd": None, "rc": rc, "kind": k, "frames": fr, "err": err[-1800:]})
+            recs.append({"cls": "crash", "stage": "exit", "tn": None, "cmd": None, "rc": rc, "kind": k, "frames": fr, "err": err[:2500] + err[-1500:] if len(err) > 4000 else err})
     nok = 0
     for l, o in zip(l2, outs):
         _, tn, _, v, s = l.split()
         if o in ("CRASH", "HANG"):
             rc, err = cr[l]
             k, fr = frames(err, rc)
-            recs.append({"cls": "crash", "stage": "rt", "tn": tn, "syn": s, "val": v, "cmd": l, "rc": rc, "kind": k, "frames": fr, "err": err[-1800:], "facts": facts.get((tn, v))})
+            recs.append({"cls": "crash", "stage": "rt", "tn": tn, "syn": s, "val": v, "cmd": l, "rc": rc, "kind": k, "frames": fr, "err": err[:2500] + err[-1500:] if len(err) > 4000 else err, "facts": facts.get((tn, v))})
             continue
         st = o.split("=", 1)[1] if "=" in o else o
         if st.startswith("NL:"):
@@ -177,8 +177,42 @@ def buckets(paths):
                 print("          %s ::= %s" % (rn, widefind.render(r["asts"][rn])[:300]))
 
 
+
+
+def summary(paths):
+    """python3 notes/wide_triage.py --summary files...: finding id x syntax x status table (classification re-run)"""
+    recs = [json.loads(l) for p in paths for l in open(p)]
+    t = collections.Counter()
+    seeds = set()
+    tot = collections.Counter()
+    for r in recs:
+        seeds.add(r["seed"])
+        if r["cls"] == "okstat":
+            tot["battery lines (value x syntax)"] += r["total"]
+            tot["OK"] += r["ok"]
+        elif r["cls"] == "fillstat":
+            for k, v in r["stat"].items():
+                tot["fill " + k] += v
+        elif r["cls"] == "notbuilt":
+            tot["modules not built"] += 1
+        elif r["cls"] == "fail":
+            fid = widefind.classify({"asts": r["asts"], "text": r["text"], "default": r["default"]}, r["tn"], r["syn"], r["status"], "", (r.get("facts") or "-").split(","))
+            t[(fid or "UNCLASSIFIED", r["syn"], re.sub(r"\d+", "N", r["status"]))] += 1
+        elif r["cls"] == "crash":
+            if r.get("stage") == "rfill":
+                t[("(value source) asn_random_fill dies: " + r["kind"][:60], "-", "CRASH")] += 1
+                continue
+            fid = widefind.classify({"asts": r.get("asts", {}), "text": r.get("text", ""), "default": r.get("default")}, r.get("tn"), r.get("syn"), "HANG" if r["kind"] == "HANG" else "CRASH", r["err"], (r.get("facts") or "-").split(",")) if r.get("tn") else None
+            t[(fid or "UNCLASSIFIED", r.get("syn"), "CRASH in " + (r["frames"][0] if r["frames"] else "?"))] += 1
+    print("seeds:", len(seeds), dict(tot))
+    for k, v in sorted(t.items(), key=lambda kv: (kv[0][0], -kv[1])):
+        print("%6d  %-45s %-5s %s" % (v, k[0], k[1], k[2]))
+
+
 if __name__ == "__main__":
     if sys.argv[1] == "--buckets":
         buckets(sys.argv[2:])
+    elif sys.argv[1] == "--summary":
+        summary(sys.argv[2:])
     else:
         main()
